@@ -86,6 +86,12 @@ func configs(thorough bool) []config {
 	}
 	out = append(out, mkConfig(true, false, one(3), dnsfix.RDBv2, false, false))
 	out = append(out, mkConfig(true, true, multi, dnsfix.CDB, false, false))
+	// the same three listeners in front of the response cache with weighted answers cached too
+	// (-cache -cache-wrs-timeout N): the listeners share one handler and one cache
+	cw := mkConfig(false, false, multi, dnsfix.CDB, false, true)
+	cw.CacheWRS = true
+	cw.Name += "wrs"
+	out = append(out, cw)
 	if thorough {
 		for _, be := range []dnsfix.Backend{dnsfix.RDBv1, dnsfix.RDBv2} {
 			for _, w := range bools {
@@ -114,10 +120,6 @@ func configs(thorough bool) []config {
 			}
 		}
 		out = append(out, mkConfig(true, false, multi, dnsfix.CDB, false, true))
-		cw := mkConfig(false, false, multi, dnsfix.CDB, false, true)
-		cw.CacheWRS = true
-		cw.Name += "wrs"
-		out = append(out, cw)
 		out = append(out, mkConfig(true, false, []listenerSpec{{"::1", 2}}, dnsfix.CDB, false, false))
 		out = append(out, mkConfig(false, true, []listenerSpec{{"::1", 4}}, dnsfix.RDBv2, true, true))
 	}
@@ -326,9 +328,9 @@ func main() {
 	for i := 0; i < len(samples); i += step {
 		r.Sample(samples[i])
 	}
-	var names []string
+	var cfgNames []string
 	for _, c := range cfgs {
-		names = append(names, c.Name)
+		cfgNames = append(cfgNames, c.Name)
 	}
 	var ts []string
 	for _, t := range transports(r.Thorough()) {
@@ -336,22 +338,22 @@ func main() {
 	}
 	r.Set("configurations", len(cfgs))
 	r.Set("configurations_completed", completed)
-	r.Set("configuration_names", names)
+	r.Set("configuration_names", cfgNames)
 	r.Set("transports", ts)
-	r.Set("names", len(names20()))
+	r.Set("names", len(names()))
 	r.Set("qtypes", len(qtypes))
 	r.Set("queries_in_closed_set", len(querySet()))
 	r.Set("raw_malformed_messages", len(rawMessages()))
 	r.Set("states", r.Int("cases"))
 	r.Set("transitions", r.Int("socket_exchanges"))
 	r.Set("traces_validated_against_impl", r.Int("responses_compared"))
-	r.Set("rule", "every configuration of {whoami unset/set} x {refuse-ANY off/on} x max answer {1,2,3} on CDB with UDP+TCP listeners on 127.0.0.1 port 0, one configuration on RocksDB v2 keys, one with three listeners (127.0.0.1, 127.0.0.2, ::1) carrying max answer 1,2,3 (thorough: all backends, always-compress, response cache, IPv6-only listener, more buffer sizes); "+
+	r.Set("rule", "every configuration of {whoami unset/set} x {refuse-ANY off/on} x max answer {1,2,3} on CDB with UDP+TCP listeners on 127.0.0.1 port 0, one configuration on RocksDB v2 keys, one with three listeners (127.0.0.1, 127.0.0.2, ::1) carrying max answer 1,2,3, and the same three listeners with the response cache on and weighted answers cached (thorough: all backends, always-compress, response cache, IPv6-only listener, more buffer sizes); "+
 		"for each listener every query of the closed set (all names of the fixed data file incl. absent, out-of-zone, delegated, wildcard, >512/>1232/>4096-byte RRsets, whoami name in lower/mixed case and a name below it, x {A,AAAA,NS,SOA,MX,TXT,ANY}, plus ECS/DO variants) x {UDP without EDNS, UDP with each advertised size, TCP}, one exchange at a time over real sockets with retry on silence; "+
 		"oracle = canonical equality (dnsfix.Canon + exact question name; id ignored) with FBDNSDB.ServeDNS(WithMaxAnswer(n)) run in-process on the same wire query and a writer reporting the same transport/local/remote address (address sets with more candidates than max answer: subset of candidates and count); reply never larger than the client's buffer; TC set whenever the complete (TCP) answer cannot fit; TCP answer not truncated; ANY under refusal = exactly one HINFO at the query name; whoami name = whoami handler's TXT protocol/source/destination and no database record; "+
 		"malformed messages (no question, two questions) over UDP and TCP get a failure reply or none and the next query is answered; the listener's handler chain called in-process with a question-less message must not panic. "+
 		"states = (configuration, listener, query, transport) cases; transitions = socket exchanges; non-trivial = cases whose expected reply carries at least one record in answer or authority")
 	r.Assume = []string{
-		"the kernel's loopback UDP/TCP delivery is trusted; a silent attempt is retried (2,4,8,16 s) and only total silence is judged",
+		"the kernel's loopback UDP/TCP delivery is trusted; a silent attempt is retried (deadlines 2, 4, 8 s) and only total silence is judged",
 		"the in-process bare handler is a second FBDNSDB instance opened on the same database file",
 		"weighted selections are compared as subset-and-count, not as a distribution (C11 owns that)",
 		"TLS and DNSSEC front handlers are not configured",
@@ -359,8 +361,6 @@ func main() {
 	clean()
 	r.Finish()
 }
-
-func names20() []string { return names() }
 
 func lastLines(s string, n int) string {
 	l := strings.Split(strings.TrimSpace(s), "\n")
